@@ -12,7 +12,7 @@
    cursor one column short.  The erase and sequence theorems therefore come as _partial
    (everything outside that trigger class, [erase_trigger] / [rv_edge_excl]) and _refuted. *)
 From Coq Require Import ZArith List Bool.
-From Tickit Require Import Csi CsiProofs VT TermPenDefs TermPenSpec XtermDefs XtermSpec XtermProofs XtermBytes TermApiDefs TermApiSpec TermApiProofs VTProofs.
+From Tickit Require Import Csi CsiProofs VT TermPenDefs TermPenSpec XtermDefs XtermSpec XtermProofs XtermBytes TermApiDefs TermApiSpec TermApiProofs VTProofs FlushOnVT ScrollOnVT.
 Import ListNotations.
 Local Open Scope Z_scope.
 
@@ -186,6 +186,118 @@ Theorem C09_printn_zero_fixed : forall t str, api_step t (APrintn str 0) = Some 
 Proof. exact printn_zero_fixed. Qed.
 Print Assumptions C09_printn_zero_fixed.
 
+(* ---- END TO END with C04 (render-buffer flush).  C04_flush_full_reachable says: the terminal operations a
+   flush emits (goto / setpen / print / erasech), run on the ABSTRACT grid terminal T0 (RBFlushDefs.t_run),
+   leave what the buffer expects (grid_meets).  Here the same operations go through the public API of term.c
+   and the xterm driver (api_of_termop, api_run) onto the VT screen, and the result REFINES the abstract run
+   cell by cell: every cell the flush wrote ([written w], w = what RBTermSim.paint records) holds on the VT
+   screen the glyph of the abstract terminal's cell, rendered with that cell's pen ([wrel]: attributes =
+   [rend] of the pen, i.e. C10's rendition; for an erased blank: a space on the pen's visible background,
+   which is all ECH leaves); every other cell of the screen is untouched on both sides.
+   Hypotheses (all explicit): the program's line styles are 1..3 (C04's op_ok); the screen is at least as large as
+   the buffer; it has no margins, autowrap on, cursor on it (vt_ok, inside SimInv); the driver's cached pen is the
+   converted logical pen with reverse video off and the screen's rendition is the abstract terminal's pen
+   (SimInv; true of the state after start(), FlushOnVT.sim_start); and [termop_okb] of every emitted operation:
+   pens in range and every printed code point printable ASCII 0x20..0x7e -- the one width class the VT model
+   (one byte, one cell) and the library (cpw = 1) agree on; Latin-1, box-drawing glyphs (line cells), combining
+   and fullwidth characters are outside VT.v, which has no UTF-8 decoder.  The render buffer's pens are C19's
+   attribute maps (ten attributes, RGB secondaries); [termop_okb] bounds every set pen to fg / bg by palette
+   index -1..255 without RGB secondary, bold, underline style 0..3, and the other six attributes (italic,
+   reverse, strike, altfont, blink, sizepos) ABSENT.  With reverse video excluded that way, only the ECH
+   strategy of erasech is exercised and the recorded right-edge trigger class cannot arise (set-pen resets
+   reverse); flushes with reverse-video pens (xterm_payload's blanks instead of ECH) are outside this theorem. *)
+Theorem C04_C09_flush_on_vt : forall L C prog s r colon rgb8 v0 t0 l0 pn0 T0,
+  0 <= L -> 0 <= C -> Forall Tickit.RBFlushReach.op_ok prog ->
+  Tickit.RBDefs.run (Tickit.RBDefs.rb_new L C) prog = Tickit.RBDefs.Ok (s, r) ->
+  SimInv colon rgb8 v0 t0 l0 pn0 -> abs_of v0 pn0 T0 -> L <= v_lines v0 -> C <= v_cols v0 ->
+  exists ops T1 w,
+    Tickit.RBFlushDefs.flush s = Tickit.RBDefs.Ok (ops, Tickit.RBDefs.reset s) /\
+    Tickit.RBFlushDefs.t_run T0 ops = Tickit.RBDefs.Ok T1 /\
+    Tickit.RBFlushSpec.grid_meets (Tickit.RBSpec.ag (fst (Tickit.RBSpec.arun (Tickit.RBSpec.a_new L C) prog)))
+                                  (Tickit.RBFlushDefs.tg T0) (Tickit.RBFlushDefs.tg T1) = true /\
+    (Forall (fun o => termop_okb o = true) ops ->
+     exists t1 toks l1 pn1,
+       api_run t0 (map api_of_termop ops) = Some (t1, toks) /\
+       SimInv colon rgb8 (vt_run toks v0) t1 l1 pn1 /\
+       forall y x, 0 <= y < v_lines v0 -> 0 <= x < v_cols v0 ->
+         if written w (y, x)
+         then wrel colon (v_grid (vt_run toks v0) y x) (Tickit.RBTermSim.tcellat T1 y x)
+         else v_grid (vt_run toks v0) y x = v_grid v0 y x /\
+              Tickit.RBTermSim.tcellat T1 y x = Tickit.RBTermSim.tcellat T0 y x).
+Proof. exact flush_on_vt. Qed.
+Print Assumptions C04_C09_flush_on_vt.
+
+(* the simulation behind it, for ANY operation list the gridless executor [paint] accepts *)
+Theorem C04_C09_paint_on_vt : forall ops colon rgb8 v t l pn cur w cur' pen',
+  SimInv colon rgb8 v t l pn -> cur_rel v cur ->
+  Forall (fun o => termop_okb o = true) ops ->
+  Tickit.RBTermSim.paint (v_lines v) (v_cols v) cur pn ops = Some (w, cur', pen') ->
+  exists t' toks l',
+    api_run t (map api_of_termop ops) = Some (t', toks) /\
+    SimInv colon rgb8 (vt_run toks v) t' l' pen' /\ cur_rel (vt_run toks v) cur' /\
+    v_lines (vt_run toks v) = v_lines v /\ v_cols (vt_run toks v) = v_cols v /\
+    cells_rel colon w v (vt_run toks v).
+Proof. exact paint_on_vt. Qed.
+Print Assumptions C04_C09_paint_on_vt.
+
+(* the hypothesis SimInv holds of a fresh driver on the screen start() leaves, with the empty pen *)
+Theorem C04_C09_start : forall lines cols d, 0 < lines -> 0 < cols ->
+  SimInv (cap_colon (x_caps d)) (cap_rgb8 (x_caps d)) (vt_run xt_start (vt_init lines cols))
+         (mkTerm d true empty_pen lines cols) empty_pen Tickit.RBDefs.pen_empty.
+Proof. exact sim_start. Qed.
+Print Assumptions C04_C09_start.
+
+(* ---- the scroll path end to end (for the window layer).
+   C09_scroll_exact: the exact cell-wise effect of every strategy of scrollrect: when the driver accepts,
+   each cell of the rectangle holds the cell (d, rt) further on, or -- where that lies outside the rectangle --
+   a blank (space, all attributes off, background = the current rendition's a_bg: VT erase semantics, which
+   is also what ICH/DCH/IL/DL/SU/SD insert); every other cell, the rendition, the modes and the (reset) margins
+   are as before and the cursor is on the screen; when it refuses, nothing is written.
+   C09_api_scroll_on_vt: the same for tickit_term_scrollrect through term.c, with the invariant SInv kept.
+   C09_win_scroll_on_vt: the window layer's terminal model (WinDefs.term_scroll: grid of glyphs, acceptance
+   oracle) with the xterm driver's own acceptance (xt_oracle) as its oracle is simulated by the VT run of the
+   driver's tokens: the result code is the oracle's answer, glyph_rel (window-layer grid = glyphs of the VT
+   screen, cell by cell on the screen) is preserved, together with vt_ok / SInv / rendition / modes, so the
+   lemma can be iterated and interleaved with C04_C09_paint_on_vt.
+   Hypotheses: vt_ok (margins reset, cursor on screen, DECAWM on), SInv (sizes agree, DECLRMM set when the
+   driver believes so -- true after start() by C09_start_state), and scroll_req_ok: a non-empty rectangle
+   inside the screen moved by less than its size in each direction (what window.c asks after clipping;
+   larger moves never reach the terminal).  No pen hypothesis is needed. *)
+Theorem C09_scroll_exact : forall v slrm r d rt, vt_ok v -> in_range (RScroll r d rt) v ->
+  (slrm = true -> md_lrmm (v_md v) = true) ->
+  scroll_res (fst (xt_scrollrect slrm (v_cols v) r d rt)) (snd (xt_scrollrect slrm (v_cols v) r d rt)) v r d rt.
+Proof. exact scroll_exact. Qed.
+Print Assumptions C09_scroll_exact.
+
+Theorem C09_api_scroll_on_vt : forall t v r d rt, vt_ok v -> SInv t v -> in_range (RScroll r d rt) v ->
+  exists ok ts,
+    xt_scrollrect (cap_slrm (x_caps (t_drv t))) (t_cols t) r d rt = (ok, ts) /\
+    api_step t (AScrollrect r d rt) = Some (t, ts, Some (if ok then 1 else 0)) /\
+    (if ok
+     then let v' := vt_run ts v in
+          vt_ok v' /\ SInv t v' /\ v_sgr v' = v_sgr v /\ v_md v' = v_md v /\
+          (forall y x, v_grid v' y x = shifted_grid v r d rt y x)
+     else ts = []).
+Proof. exact api_scroll_on_vt. Qed.
+Print Assumptions C09_api_scroll_on_vt.
+
+Theorem C09_win_scroll_on_vt : forall t v tm r d rt,
+  vt_ok v -> SInv t v -> glyph_rel tm v ->
+  Tickit.WinDefs.t_oracle tm = xt_oracle (cap_slrm (x_caps (t_drv t))) ->
+  scroll_req_ok tm r d rt ->
+  exists ts,
+    api_step t (AScrollrect (conv r) d rt) =
+      Some (t, ts, Some (if snd (Tickit.WinDefs.term_scroll tm r d rt) then 1 else 0)) /\
+    (snd (Tickit.WinDefs.term_scroll tm r d rt) = false -> ts = []) /\
+    vt_ok (vt_run ts v) /\ SInv t (vt_run ts v) /\
+    v_sgr (vt_run ts v) = v_sgr v /\ v_md (vt_run ts v) = v_md v /\
+    glyph_rel (fst (Tickit.WinDefs.term_scroll tm r d rt)) (vt_run ts v) /\
+    Tickit.WinDefs.t_oracle (fst (Tickit.WinDefs.term_scroll tm r d rt)) = Tickit.WinDefs.t_oracle tm /\
+    (snd (Tickit.WinDefs.term_scroll tm r d rt) = true ->
+     forall y x, v_grid (vt_run ts v) y x = shifted_grid v (conv r) d rt y x).
+Proof. exact win_scroll_on_vt. Qed.
+Print Assumptions C09_win_scroll_on_vt.
+
 (* non-vacuity: a 4x5 patterned screen, a DECSLRM-capable driver; scrolling the 2x3 rectangle
    at (1,1) by (1,-1) is in range, succeeds with a non-empty token list, and the cell at (1,2)
    afterwards is the one that was at (2,1) *)
@@ -197,3 +309,17 @@ Example C09_nonvacuous :
   length (snd (xt_scrollrect true 5 r 1 (-1))) = 7%nat /\
   c_glyph (v_grid (vt_run (snd (xt_scrollrect true 5 r 1 (-1))) v) 1 2) = c_glyph (v_grid v 2 1).
 Proof. vm_compute. repeat split; reflexivity. Qed.
+
+(* non-vacuity of C09_win_scroll_on_vt: its hypotheses hold for a DECSLRM-capable driver after start(),
+   the request is accepted, a vacated cell becomes a blank and a kept one the shifted cell *)
+Example C09_win_scroll_nonvacuous :
+  let v := vt_run xt_start (vt_init 4 5) in
+  let t := mkTerm slrm_drv true empty_pen 4 5 in
+  let tm := Tickit.WinDefs.term_set_grid (Tickit.WinDefs.term_new 4 5 (xt_oracle (cap_slrm (x_caps slrm_drv))))
+                             (fun q => c_glyph (v_grid v (fst q) (snd q))) in
+  let r := Tickit.RectDefs.mkRect 1 1 2 3 in
+  vt_ok v /\ SInv t v /\ glyph_rel tm v /\ scroll_req_ok tm r 1 (-1) /\
+  snd (Tickit.WinDefs.term_scroll tm r 1 (-1)) = true /\
+  shifted_grid v (conv r) 1 (-1) 2 1 = blank_cell (v_sgr v) /\
+  shifted_grid v (conv r) 1 (-1) 1 2 = v_grid v 2 1.
+Proof. exact win_scroll_example. Qed.
